@@ -584,8 +584,10 @@ row('CODE.CONS', ['C08'], takes=[('code', 2)], pushes=[('code', None)], clauses=
      '(if top(S0.code, 0) is List { top(S0.code, 0)->items@ } else { seq![top(S0.code, 0)] }).push(top(S0.code, 1))')])
 for nm in ['CODE.CONTAINER']:
     row(nm, ['C08'], fired='(S0.code.len() >= 2)', pushes=[('code', None)])
-for nm in ['CODE.CONTAINS', 'CODE.MEMBER']:
-    row(nm, ['C08'], fired='(S0.code.len() >= 2)', pushes=[('bool', None)])
+# CONTAINS: the top item contains the second item anywhere (at any depth, itself included) -- the operand order the repository's test pins;
+# MEMBER is its mirror image (the second item contains the top item).  Structural: some point of the container equals the other item.
+row('CODE.CONTAINS', ['C08'], fired='(S0.code.len() >= 2)', pushes=[('bool', 'crate::push::item::first_pos(top(S0.code, 0), top(S0.code, 1)).is_some()')])
+row('CODE.MEMBER', ['C08'], fired='(S0.code.len() >= 2)', pushes=[('bool', 'crate::push::item::first_pos(top(S0.code, 1), top(S0.code, 0)).is_some()')])
 row('CODE.DISCREPANCY', ['C08'], fired='(S0.code.len() >= 2)', pushes=[('int', None)])
 row('CODE.DEFINITION', ['C07'], takes=[('name', 1)], guard='S0.bindings.contains_key(top(S0.name, 0))', pushes=[('code', 'S0.bindings[top(S0.name, 0)]')])
 PTS = 'crate::push::item::points'
@@ -708,6 +710,15 @@ FN_OVERLAYS['code::code_position'] = dict(proofs={'body_start': '''        proof
             if push_state.code_stack@.len() >= 2 {
                 crate::push::item::lemma_first_pos_is_a_match(top(push_state.code_stack@, 0), top(push_state.code_stack@, 1));
                 assert(crate::push::item::points(push_state.code_stack@[push_state.code_stack@.len() - 1]) < 0x7fff_ffff);
+            }
+        }
+'''})
+
+for _p in ['code::code_contains', 'code::code_member']:
+    FN_OVERLAYS[_p] = dict(proofs={'body_start': '''        proof {
+            if push_state.code_stack@.len() >= 2 {
+                assert(crate::push::item::points(push_state.code_stack@[push_state.code_stack@.len() - 1]) < 0x7fff_ffff);
+                assert(crate::push::item::points(push_state.code_stack@[push_state.code_stack@.len() - 2]) < 0x7fff_ffff);
             }
         }
 '''})
